@@ -77,6 +77,7 @@ class ClassInfo:
         self.name = node.name
         self.qual = module.name + '.' + node.name
         self.methods = {}
+        self.rebound = set()      # names bound in the class body to a value that is not a plain def
         self.class_attrs = {}
         self.ann_fields = []      # [(name, default node or None)] in source order (dataclass fields)
         self.decorators = [ast.unparse(d) for d in node.decorator_list]
@@ -89,9 +90,21 @@ class ClassInfo:
                     self.methods[st.name + '.setter'] = st
                 else:
                     self.methods[st.name] = st
+                    self.rebound.discard(st.name)
             elif isinstance(st, ast.Assign):
                 for t in st.targets:
                     if isinstance(t, ast.Name):
+                        if isinstance(st.value, ast.Name) and st.value.id in self.methods:
+                            # `get_CpoR = get_CvoR` in a class body: the same function under another name
+                            self.methods[t.id] = self.methods[st.value.id]
+                            self.class_attrs.pop(t.id, None)
+                            self.rebound.discard(t.id)
+                            continue
+                        if t.id in self.methods or isinstance(st.value, (ast.Lambda, ast.Call)):
+                            # a method name bound to something else (a wrapped function, a lambda): what a call of
+                            # it does is not the def above
+                            self.rebound.add(t.id)
+                            self.methods.pop(t.id, None)
                         self.class_attrs[t.id] = st.value
             elif isinstance(st, ast.AnnAssign) and isinstance(st.target, ast.Name):
                 self.ann_fields.append((st.target.id, st.value))
@@ -155,9 +168,20 @@ class Repo:
 
     # ------------------------------------------------------------------
     def _index(self):
+        self.patched = set()        # (class qualified name, attribute) assigned at module level: Class.method = ...
         for m in self.modules.values():
-            for st in m.tree.body:
-                self._index_stmt(m, st)
+            m.rebound = set()       # module-level names bound more than once to different kinds of things
+            def walk(body):
+                for st in body:
+                    self._index_stmt(m, st)
+                    # names bound inside module-level if / try / with blocks are module-level names too
+                    for attr in ('body', 'orelse', 'finalbody'):
+                        if isinstance(st, (ast.If, ast.Try, ast.With)) and getattr(st, attr, None):
+                            walk(getattr(st, attr))
+                    if isinstance(st, ast.Try):
+                        for h in st.handlers:
+                            walk(h.body)
+            walk(m.tree.body)
             # imports anywhere at module level incl. inside try/if
             for st in ast.walk(m.tree):
                 if isinstance(st, (ast.Import, ast.ImportFrom)):
@@ -183,13 +207,21 @@ class Repo:
 
     def _index_stmt(self, m, st):
         if isinstance(st, (ast.FunctionDef, ast.AsyncFunctionDef)):
+            if st.name in m.classes or st.name in m.assigns or st.name in m.functions:
+                m.rebound.add(st.name)
             m.functions[st.name] = st
         elif isinstance(st, ast.ClassDef):
+            if st.name in m.functions or st.name in m.assigns or st.name in m.classes:
+                m.rebound.add(st.name)
             m.classes[st.name] = ClassInfo(m, st)
         elif isinstance(st, ast.Assign):
             for t in st.targets:
                 if isinstance(t, ast.Name):
+                    if t.id in m.functions or t.id in m.classes:
+                        m.rebound.add(t.id)         # a def or class replaced by a value (a wrapper, a subclass)
                     m.assigns.setdefault(t.id, []).append(st.value)
+                elif isinstance(t, ast.Attribute) and isinstance(t.value, ast.Name) and t.value.id in m.classes:
+                    self.patched.add((m.classes[t.value.id].qual, t.attr))
         elif isinstance(st, ast.Expr) and isinstance(st.value, ast.Call) \
                 and isinstance(st.value.func, ast.Attribute) and st.value.func.attr == 'update' \
                 and isinstance(st.value.func.value, ast.Name) and len(st.value.args) == 1 \
@@ -292,6 +324,9 @@ class Repo:
         ('function', Module, FunctionDef) | ('value', Module, node) | None"""
         if _depth > 8:
             return None
+        if name in getattr(m, 'rebound', ()):
+            raise Unsupported('module-level name %s.%s is bound more than once (a def or class replaced by another '
+                              'value)' % (m.name, name))
         if name in m.classes:
             self.consulted.add(m)
             return m.classes[name]
@@ -383,6 +418,9 @@ class Repo:
         if after is not None:
             mro = mro[mro.index(after) + 1:]
         for k in mro:
+            if name in k.rebound or (k.qual, name) in self.patched:
+                raise Unsupported('%s.%s is bound to something other than a def (class body or module level)'
+                                  % (k.qual, name))
             if name in k.methods:
                 self.consulted.add(k.module)
                 return k, k.methods[name]
